@@ -14,7 +14,9 @@ PROPS = {
         "lean_modules": ["Props.Clean", "Props.Cells", "Props.Facts19", "Props.C01p"],
         "groups": [{"name": "render", "quick": 2500, "thorough": 60000}, {"name": "C01misc", "quick": 2000, "thorough": 60000},
                    {"name": "C14", "quick": 1500, "thorough": 40000}, {"name": "C06", "quick": 1200, "thorough": 30000, "workers": 12},
-                   {"name": "present", "quick": 800, "thorough": 20000, "workers": 12}],
+                   {"name": "present", "quick": 800, "thorough": 20000, "workers": 12},
+                   # whole worlds browsed over the network: items whose error texts quote what a server sent (junk status lines)
+                   {"name": "C02P", "quick": 500, "thorough": 15000, "workers": 8}],
         "rule": "documents from grammars of HTML (inline styles, links, media, blockquotes, lists, headings, pre, hr, unknown tags, character-reference and raw control-character injections), Markdown, gemtext and plain text with URLs x sequences of 1..4 widths (-3..250); "
                 "error text quoting hostile status lines / media types / raw control characters through style.Problem; Scrub and SetLength on raw text with C0, DEL, C1, ESC, tabs; style expressions followed by layout pipelines; "
                 "C01misc: every second op takes the next of all C0 / DEL / C1 code points (then bidi, zero-width, line-separator, tag and annotation characters, which are printable for code and model alike), alone or as the introducer of a CSI / OSC / DCS / APC / PM / SOS sequence with BEL / ST terminators, at the start, in the middle, at the end and right at / before / after the cut of SetLength, inside the error texts that quote server bytes; "
@@ -53,7 +55,9 @@ PROPS = {
                    {"name": "render", "quick": 600, "thorough": 15000, "workers": 6, "config": C14_COLOURS},
                    {"name": "presentP", "quick": 600, "thorough": 20000, "workers": 12},
                    # whole frames of the real interface (status line, cut and centred item texts): frames_neutral
-                   {"name": "C07", "quick": 96, "thorough": 2500, "workers": 16}],
+                   {"name": "C07", "quick": 96, "thorough": 2500, "workers": 16},
+                   # whole worlds browsed over the network: items whose error texts quote what a server sent (junk status lines)
+                   {"name": "C02P", "quick": 500, "thorough": 15000, "workers": 8}],
         "rule": "style expressions (nesting and concatenation of the eight style functions over texts with newlines at the start, at the end and doubled, blanks of every unicode.IsSpace kind, wide, combining and invisible characters, sentences long enough to wrap; a third of them at least three levels deep around already styled concatenations that span line breaks) "
                 "optionally followed by 0..3 (one in ten: 4..7) layout steps (wrap, dumbwrap, pad, indent with seven prefixes incl. a styled one, snip to heights 0..10, quote, header of levels 0..7, bullet, code block, link and linkblock with numbers of 1..10 digits, a further style function around the laid-out text) at widths 1..24 and 0, 40..250; "
                 "run under the default colours and under a configuration with four other colours (the colours in force travel with the op); a terminal state machine is run on the implementation's output: per-character attributes must equal the enclosing style functions, and no attribute may be active at a line break or at the end; "
